@@ -59,37 +59,12 @@ func verrKind(err error) string {
 
 func signKind(err error) string {
 	msg := err.Error()
-	var ip *cert.ErrInvalidCertificateProperties
+	if k := cl.InvalidKind(err); k != "" {
+		return k
+	}
 	switch {
-	case errors.Is(err, cert.ErrInvalidPublicKey):
-		return "err:invalid:public-key"
 	case errors.Is(err, cert.ErrEmptySignature):
 		return "err:empty-signature"
-	case errors.As(err, &ip):
-		switch {
-		case strings.HasPrefix(msg, "non-CA certificate must contain at least 1 network"), strings.HasPrefix(msg, "non-CA certificates must contain exactly one network"):
-			return "err:invalid:no-networks"
-		case strings.HasPrefix(msg, "invalid network"):
-			return "err:invalid:invalid-network"
-		case strings.HasPrefix(msg, "non-CA certificates must not use the zero address"):
-			return "err:invalid:zero-address"
-		case strings.HasPrefix(msg, "4in6 networks are not allowed"):
-			return "err:invalid:4in6"
-		case strings.HasPrefix(msg, "certificate may not contain IPv6 networks"):
-			return "err:invalid:v1-ipv6"
-		case strings.HasPrefix(msg, "certificate may not contain IPv6 unsafe networks"):
-			return "err:invalid:v1-ipv6-unsafe"
-		case strings.HasPrefix(msg, "invalid unsafe network"):
-			return "err:invalid:invalid-unsafe"
-		case strings.HasPrefix(msg, "IPv6 unsafe networks require"):
-			return "err:invalid:unsafe-needs-v6"
-		case strings.HasPrefix(msg, "IPv4 unsafe networks require"):
-			return "err:invalid:unsafe-needs-v4"
-		case strings.HasPrefix(msg, "duplicate network detected"):
-			// the same message for both lists: told apart by the caller
-			return "err:invalid:duplicate"
-		}
-		return "err:invalid:other:" + strings.ReplaceAll(msg, " ", "_")
 	case strings.HasPrefix(msg, "curve in cert and private key supplied don't match"):
 		return "err:key-curve"
 	case strings.HasPrefix(msg, "can not sign a CA certificate with another"):
